@@ -169,7 +169,7 @@ class Module:
         """module.c + all query entry functions + runtime -> one goto binary (parsed once, queried many times)."""
         t0 = time.time()
         mains = os.path.join(self.outdir, 'mains.c')
-        pre = '#include "vp_rt.h"\nextern int vp_pre_enabled, vp_pre_k, vp_pre_count, vp_pre_ran;\nvoid vp_run_pending_unit(void);\n'
+        pre = '#include "vp_rt.h"\nextern int vp_pre_enabled, vp_pre_k, vp_pre_count, vp_pre_ran, vp_spurious_cfg, vp_spurious_at, vp_timeout_at;\nvoid vp_run_pending_unit(void);\n'
         open(mains, 'w').write(pre + mains_text)
         arena = (self.info['globals_end'] + 63) // 64 * 64
         need = arena + nthreads * (heap + stack)
@@ -194,7 +194,7 @@ class Module:
             open(os.path.join(self.outdir, 'vp_scalar_mem.h'), 'w').write('\n'.join(h) + '\n')
             self.defines.append('VP_SCALAR_MEM=1')
         self.gb = os.path.join(self.outdir, 'module.gb')
-        cmd = ['goto-cc', '-I' + RT, '-I' + self.outdir, '-o', self.gb, self.cfile, mains, os.path.join(RT, 'vp_rt.c')] + ['-D' + d for d in self.defines]
+        cmd = ['goto-cc', '-I' + RT, '-I' + self.outdir, '-o', self.gb, self.cfile, mains, os.path.join(RT, 'vp_rt.c'), os.path.join(RT, 'vp_sync.c')] + ['-D' + d for d in self.defines]
         r = sh(cmd)
         if r.returncode != 0:
             raise Inconclusive('goto-cc failed:\n' + r.stdout[-3000:])
@@ -218,6 +218,7 @@ class QueryResult:
         self.max_rss_mb = 0
         self.log = ''
         self.cmd = ''
+        self.vacuous = False
 
 
 def _limits(mem_gb):
@@ -229,7 +230,7 @@ def _limits(mem_gb):
 
 
 def run_cbmc(name, gb, entry, outdir, unwind=8, unwindset=(), timeout=300, mem_gb=12, extra=(), words=4096,
-             trace_prop=None):
+             trace_prop=None, witness='all'):
     os.makedirs(outdir, exist_ok=True)
     log = os.path.join(outdir, name + ('.trace' if trace_prop else '') + '.log')
     cmd = ['cbmc', gb, '--function', entry]
@@ -316,8 +317,9 @@ def run_cbmc(name, gb, entry, outdir, unwind=8, unwindset=(), timeout=300, mem_g
         res.status = 'violation'
     elif res.inconclusive:
         res.status = 'inconclusive'
-    elif res.witness_missing or not seen_w:
+    elif (res.witness_missing and (witness == 'all' or res.witness_reached == 0)) or not seen_w:
         res.status = 'inconclusive'
+        res.vacuous = True
         res.inconclusive.append('vacuous: witness not reachable: %s' % (res.witness_missing or 'no witness in harness'))
     else:
         res.status = 'ok'
@@ -393,11 +395,15 @@ def unit_selector(units):
     return s
 
 
-def cube_entry(entry, prologue, outer, inner_index, k, epilogue, kmax, prologue_args=''):
+def cube_entry(entry, prologue, outer, inner_index, k, epilogue, kmax, prologue_args='', spurious_at=-1, spurious_nondet=None):
     """Tier A: `inner` runs to completion at the k-th atomic operation of `outer` (k=-1: after it).  With k=-1 the query also
     proves that `outer` alone never performs more than kmax atomic operations, i.e. that the cubes 0..kmax-1 cover it."""
-    s = 'void %s(void) {\n  vp_init();\n  %s(%s);\n  vp_unit_sel = %d; vp_pre_k = %d; vp_pre_enabled = 1;\n  %s();\n' % (
-        entry, prologue, prologue_args, inner_index, k, outer)
+    # spurious weak-CAS failures make the number of atomic operations symbolic: they are explored in the k=none queries
+    # (both sequential orders), the preemption cubes run without them
+    if spurious_nondet is None:
+        spurious_nondet = 1 if k < 0 else 0
+    s = 'void %s(void) {\n  vp_spurious_cfg = %d; vp_spurious_at = %d;\n  vp_init();\n  %s(%s);\n  vp_unit_sel = %d; vp_pre_k = %d; vp_pre_enabled = 1;\n  %s();\n' % (
+        entry, spurious_nondet, spurious_at, prologue, prologue_args, inner_index, k, outer)
     if k < 0:
         s += '  VP_ASSERT(vp_pre_count <= %d, "VP-BOUND: unit performs more atomic operations than there are preemption cubes");\n' % kmax
     s += '  vp_run_pending_unit();\n  vp_pre_enabled = 0;\n  %s();\n}\n' % epilogue
